@@ -99,6 +99,7 @@ fn verif_read_source_file(path: &Xstr) -> Xresult1<String> { unimplemented!() }
 //@use compile.fns ::core_word_def_begin_named
 //@use compile.fns ::core_word_def_begin
 //@use compile.fns ::core_word_late
+//@use compile.fns ::core_word_const
 //@use compile.fns ::core_word_nested_begin
 //@use compile.fns ::core_word_nested_end
 //@use compile.fns ::core_word_def_end
@@ -118,6 +119,16 @@ spec fn dict_last(d: Seq<DictEntry>, t: Seq<char>, i: int) -> bool {
     0 <= i < d.len() && xstr_text(d[i].name) == t && forall|j: int| i < j < d.len() ==> xstr_text(d[j].name) != t
 }
 pub uninterp spec fn sub_str(t: Xsubstr) -> &'static str;
+// `const`: the name t is bound to the constant v afterwards
+spec fn const_defined(d0: Seq<DictEntry>, d1: Seq<DictEntry>, t: Seq<char>, v: Cell) -> bool {
+    // a new constant when the name is not bound ...
+    ||| (forall|i: int| 0 <= i < d0.len() ==> xstr_text(d0[i].name) != t)
+        && d1.len() == d0.len() + 1 && d1.drop_last() == d0 && d1.last().entry == Entry::Constant(v) && xstr_text(d1.last().name) == t
+    // ... or the LATEST entry of that name, which must be a constant, gets the new value in place
+    ||| exists|i: int| #[trigger] dict_last(d0, t, i) && d0[i].entry is Constant && d1.len() == d0.len()
+        && d1[i].entry == Entry::Constant(v) && d1[i].name == d0[i].name
+        && forall|j: int| 0 <= j < d0.len() && j != i ==> d1[j] == d0[j]
+}
 impl Xsubstr { #[verifier::external_body] pub fn as_str(&self) -> (r: &str) ensures r == sub_str(*self) { unimplemented!() } }
 // `Xstr == str` (arcstr): equality of the texts
 #[verifier::external_body] fn xstr_eq_str(x: &Xstr, s: &str) -> (r: bool) ensures r == (xstr_text(*x) == name_text(s)) { unimplemented!() }
@@ -156,6 +167,12 @@ impl Xerr {
 //@use corewords.fns State::load_core#w__x23_x29
 //@use corewords.fns State::load_core#w_do
 //@use corewords.fns State::load_core#w_loop
+
+//@use corewords.fns State::load_core#w__x3a
+
+//@use corewords.fns State::load_core#w_late
+
+//@use corewords.fns State::load_core#w_const
 
 } // verus!
 fn main() {}
